@@ -306,7 +306,13 @@ def judgeTh (o : Th) (obs : String) : String :=
     if w ≠ o.w ∨ h ≠ o.h then "fail shape" else
     judgePlanes (o.planes.map fun p => p.map fun px => o.d.wrap (thresholdSpec o.k px o.t o.mx)) groups "threshold-per-channel-comparison"
 
-def model (line : String) : String :=
+/-- the op word `@<src><dst>` selects the MEMORY GEOMETRY of the two views in the harness (whole image, sub-view of a larger canvas,
+    upside-down, mirrored …).  The model has no such notion: its functions take and return planes indexed by the views' logical
+    coordinates only (C16_view_geometry_irrelevant), so the word is dropped before parsing. -/
+def dropGeo (line : String) : String := " ".intercalate ((words line).filter fun w => !w.startsWith "@")
+
+def model (line0 : String) : String :=
+  let line := dropGeo line0
   match (words line).head? with
   | some "th" => match parseTh line with | some o => modelTh o | none => "bad-op"
   | some "ot" => match parseOt line with | some o => modelOt o | none => "bad-op"
@@ -315,7 +321,11 @@ def model (line : String) : String :=
   | some "ad" => match parseAd line with | some o => modelAd o | none => "bad-op"
   | _ => "bad-op"
 
-def judge (op obs : String) : String :=
+def judge (op0 obs : String) : String :=
+  let op := dropGeo op0
+  -- frame clause ("none of them … writes outside the destination"): the harness counts the canvas cells outside the destination view
+  -- that no longer hold the guard value
+  if obs.startsWith "frame-violated" then "fail writes-outside-the-destination-view" else
   match (words op).head? with
   | some "th" => match parseTh op with | some o => judgeTh o obs | none => "fail bad-op"
   | some "ot" => match parseOt op with | some o => judgeOt o obs | none => "fail bad-op"
